@@ -55,14 +55,17 @@ _RE_DEPTH = re.compile(r"The depth of the complete state graph search is (\d+)")
 def run_tlc(workdir, module, cfg=None, workers=NCPU, env=None, timeout=3600, simulate=None, extra=(), heap=None,
             deque=False):
     """Run TLC once.  Returns dict(out, rc, generated, distinct, depth, violated, error)."""
-    _stage(workdir, None)
-    meta = os.path.join(workdir, "meta_" + module + "_" + (os.path.splitext(os.path.basename(cfg))[0] if cfg else "x"))
+    import uuid
+
+    meta = os.path.join(workdir, "meta_" + module + "_" + uuid.uuid4().hex[:12])
     shutil.rmtree(meta, ignore_errors=True)
     props = []
     if heap:
         props.append("-Xmx" + heap)
     if deque:
         props.append("-Dtlc2.tool.queue.IStateQueue=StateDeque")
+    if workers == 1:
+        props += ["-XX:ParallelGCThreads=2", "-XX:CICompilerCount=2", "-XX:TieredStopAtLevel=1"]
     cmd = _java_cmd(props) + ["-workers", str(workers), "-metadir", meta, "-noGenerateSpecTE"]
     if cfg:
         cmd += ["-config", cfg]
